@@ -1029,6 +1029,51 @@ pub fn run(ctx: &mut Ctx) {
                 Err(e) => ctx.violation("C05/composite-own-output-rejected/SignedPublicKey", e.to_string(), replay.clone()),
             }
         }
+        // composite objects with every optional part populated through the public fields / conversions: a
+        // transferable secret key that carries public subkey packets next to secret ones, extra user attribute,
+        // direct-key and revocation signatures
+        {
+            use pgp::composed::SignedPublicSubKey;
+            let mut variants: Vec<(&str, SignedSecretKey)> = vec![];
+            if !key.secret_subkeys.is_empty() {
+                let mut k2 = key.clone();
+                let s = k2.secret_subkeys.remove(0);
+                k2.public_subkeys.push(SignedPublicSubKey::from(s));
+                variants.push(("SignedSecretKey-with-public-subkey", k2));
+                let mut k3 = key.clone();
+                let s = k3.secret_subkeys[0].clone();
+                k3.public_subkeys.push(SignedPublicSubKey::from(s));
+                variants.push(("SignedSecretKey-with-public-and-secret-subkey", k3));
+            }
+            {
+                let mut k4 = key.clone();
+                if let Some(u) = k4.details.users.first().cloned() {
+                    k4.details.users.push(u);
+                }
+                let d = k4.details.direct_signatures.clone();
+                k4.details.revocation_signatures.extend(k4.details.users.first().map(|u| u.signatures.clone()).unwrap_or_default());
+                k4.details.direct_signatures.extend(d);
+                variants.push(("SignedSecretKey-extra-signatures", k4));
+            }
+            for (what, k) in &variants {
+                if let Some(b) = composite_len(ctx, what, k, &replay) {
+                    ctx.cover(&("api-composite", name, *what));
+                    // what was written is the packets of all parts: parse with the reference framer and compare the count
+                    let parts = 1 + k.details.direct_signatures.len() + k.details.revocation_signatures.len()
+                        + k.details.users.iter().map(|u| 1 + u.signatures.len()).sum::<usize>()
+                        + k.details.user_attributes.iter().map(|u| 1 + u.signatures.len()).sum::<usize>()
+                        + k.public_subkeys.iter().map(|s| 1 + s.signatures.len()).sum::<usize>()
+                        + k.secret_subkeys.iter().map(|s| 1 + s.signatures.len()).sum::<usize>();
+                    match deframe(&b) {
+                        Ok(d) if d.len() == parts => {}
+                        Ok(d) => ctx.violation(format!("C05/composite-packet-count/{what}"), format!("{} packets written for {parts} parts", d.len()), replay.clone()),
+                        Err(e) => ctx.violation(format!("C05/composite-not-framed/{what}"), e, replay.clone()),
+                    }
+                }
+                let pk = k.to_public_key();
+                composite_len(ctx, &format!("{what}/to_public_key"), &pk, &replay);
+            }
+        }
         // lock / unlock mutation: lengths must stay truthful
         let slow = name.contains("Rsa") || name.contains("Dsa");
         let s2ks: Vec<S2kParams> = {
